@@ -51,8 +51,8 @@ def c16_stages(ctx):
     graph_stage(ctx, "fscore-quick", "MC_FSCore.tla", "FSCore.quick.cfg", "fscore", FS_ADAPTERS, ["--names", "a,b", "--depth", "3"])
 
 
-SUB_SPEC = ["sub=d=mem", "sub=d/e=kvplain", "sub=d=sub=e=mem", "sub=d=oshp", "sub=d=mntat"]   # state follows FSCore inside the view
-SUB_TWIN = ["sub=d=openonly", "sub=d=mntabove"]                                                # twin comparison only
+SUB_SPEC = ["sub=d=mem", "sub=d/e=kvplain", "sub=d=sub=e=mem", "sub=d=oshp", "sub=d=sub=.=oshp", "sub=d=mntat"]   # state follows FSCore inside the view
+SUB_TWIN = ["sub=d=openonly", "sub=d=mntabove", "sub=d/e=mntnested"]                                              # twin comparison only
 
 
 def sub_stages(ctx, wf="-"):
@@ -66,6 +66,8 @@ def sub_stages(ctx, wf="-"):
 
 def c03_all(ctx):
     c03_stages(ctx)
+    # no operation may terminate having made an entry unreachable, also when the store fails underneath it
+    kvfault_stages(ctx)
     mount_stages(ctx)
     sub_stages(ctx, wf="C03")
 
